@@ -323,6 +323,11 @@ func diffFormatter() *Result {
 	for _, b := range docCombos(rng, ncombo) {
 		parseAdd(b, 7, "doc-combo")
 	}
+	for i, b := range signChainSources() {
+		if opts.Tier == "thorough" || i%3 == 0 {
+			parseAdd(b, 7, "sign-chain")
+		}
+	}
 	var pool [][]byte
 	for _, s := range loadCorpus() {
 		pool = append(pool, s.Src)
